@@ -8,7 +8,7 @@ sys.path.insert(0, HERE)
 
 def seeded_table():
     rows = ['| seed | change (file / mechanism) | needs, in order to manifest | reported by |', '|---|---|---|---|']
-    for d in sorted(glob.glob(os.path.join(HERE, 'seeded', 'C*-[0-9]'))):
+    for d in sorted(glob.glob(os.path.join(HERE, 'seeded', 'C[0-9][0-9]-[0-9]*'))):
         m = json.load(open(os.path.join(d, 'meta.json')))
         by = ', '.join(c.replace(':', ' ') for c in m['caught_by']) or '**not caught**'
         note = m.get('strengthened')
